@@ -219,6 +219,10 @@ def main(argv=None) -> int:
             'pattern (∃ x0 . x0)', 'publish', 'pattern (phi0 -> phi0)', 'publish', 'next phase')
     last3 = run_bfs(chk, raw, 4 if thorough else 3, (5, 4, 14), agg, 'proof-phase-seed/raw', seeds=(seed,))
     last4 = run_bfs(chk, macro + rules, 3 if thorough else 2, (5, 4, 14), agg, 'proof-phase-seed/macro', seeds=(seed,))
+    # a theory that proves BOTH declared claims, its axioms in the other order: proofs can be offered out of claim order
+    seed2 = ('pattern (∃ x0 . x0)', 'publish', 'pattern (phi0 -> phi0)', 'publish', 'next phase',
+             'pattern (∃ x0 . x0)', 'publish', 'pattern (phi0 -> phi0)', 'publish', 'next phase')
+    run_bfs(chk, rules, 5 if thorough else 4, (5, 4, 14), agg, 'both-claims-provable-seed/rules', seeds=(seed2,))
     chk.set('states', agg.get('states', 0))
     chk.set('transitions', agg.get('transitions', 0))
     chk.set('traces_validated_against_impl', agg.get('accepted', 0))
